@@ -99,16 +99,9 @@ def gen(rng, quick):
         p = rng.randrange(n)
         ents[p] = crafted_undecodable(rng)
         ops.append({"op": "sig.verify_batch", "entries": ents})
-    # binding of the coefficients: pairs of batches that differ in exactly one input of one entry (the second of each
-    # pair is marked "bind": its coefficients must all differ from the previous batch's)
-    for n in (1, 2, 3, 7):
-        ents = honest(rng, n)
-        for how in ("S", "R", "key", "msg"):
-            p = rng.randrange(n)
-            e2 = list(ents)
-            e2[p] = corrupt(rng, ents[p], how)
-            ops.append({"op": "sig.verify_batch", "entries": ents})
-            ops.append({"op": "sig.verify_batch", "entries": e2, "bind": how})
+    # the adaptive adversary (needs the coefficient hook): honest batches of several sizes, attacked by the driver itself
+    for n in (2, 3, 7, 95):
+        ops.append({"op": "sig.verify_batch", "entries": honest(rng, n), "adaptive": True})
     # single verification of every entry is specified by C09's predicate; the batch verdict must equal their conjunction
     return ops
 
